@@ -8,7 +8,7 @@
 //	hist      sequential histories of new-account requests reusing binding keys across accounts and
 //	          provisioners; compared with `runHist` of the Lean model (driver drv_c20)
 //	conc      two/three requests interleaved at their store-visible steps by an acme.DB wrapper that
-//	          parks each request before GetAccountByKeyID / CreateAccount / UpdateExternalAccountKey;
+//	          parks each request before GetAccountByKeyID / CreateAccount / UpdateExternalAccountKey / UpdateAccount;
 //	          compared with `runSched` of the model (the model is "as coded", so D11 schedules agree)
 //	bindonce  property oracle, no driver: evaluates "every key creates at most one account, every
 //	          account under RequireEAB had an acceptable binding, a used key is bound to that account
@@ -116,6 +116,12 @@ func (g *gateDB) CreateAccount(ctx context.Context, acc *acme.Account) error {
 func (g *gateDB) UpdateExternalAccountKey(ctx context.Context, provisionerID string, eak *acme.ExternalAccountKey) error {
 	g.gate(ctx)
 	return g.DB.UpdateExternalAccountKey(ctx, provisionerID, eak)
+}
+
+// UpdateAccount: the deactivation of the just-stored account after a failed key update (fourth step)
+func (g *gateDB) UpdateAccount(ctx context.Context, acc *acme.Account) error {
+	g.gate(ctx)
+	return g.DB.UpdateAccount(ctx, acc)
 }
 
 type world struct {
@@ -419,7 +425,14 @@ func (w *world) run(k *Case) (line, impl, oracle string) {
 		case "200":
 			parts = append(parts, fmt.Sprintf("200:a%d", num(o.accID)))
 		default:
-			parts = append(parts, o.class)
+			mark := ""
+			if o.class != "-" {
+				ak := accKeys[k.Reqs[i].AccKey%len(accKeys)]
+				if a, err := e.RealDB.GetAccountByKeyID(ctx, ak.Thumb()); err == nil && a.Status == acme.StatusDeactivated {
+					mark = "+dead"
+				}
+			}
+			parts = append(parts, o.class+mark)
 		}
 	}
 	type finalKey struct {
@@ -492,6 +505,15 @@ func (w *world) run(k *Case) (line, impl, oracle string) {
 		case "200":
 			if !made[ak] && (k.Kind == "hist" || k.Sched == "") {
 				viol = append(viol, fmt.Sprintf("req%d:account-exists-without-successful-creation", i))
+			}
+		}
+	}
+	// an account that exists and is active although no request with its key was answered 201 (or 200
+	// after a 201): a request that was refused left a usable account behind
+	if k.Sched == "" || len(k.Sched) >= 4*len(k.Reqs) {
+		for j, ak := range accKeys {
+			if a, err := e.RealDB.GetAccountByKeyID(ctx, ak.Thumb()); err == nil && a.Status == acme.StatusValid && !made[j] {
+				viol = append(viol, fmt.Sprintf("acckey%d:active-account-without-201", j))
 			}
 		}
 	}
@@ -634,6 +656,29 @@ func interleavings(a, b int) []string {
 	return out
 }
 
+// genExclusive: three requests; 0 and 2 use key 0 (different account keys) and do NOT overlap each
+// other, request 1 uses key 1 (or no key: provisioner without EAB) and is interleaved freely with both.
+// bind_once_conc_exclusive says key 0 creates one account.
+func genExclusive(r *c.Rng, kind string) *Case {
+	k := &Case{Kind: kind, Keys: []KeySpec{{Prov: 0}, {Prov: 0}}}
+	k.Reqs = []ReqSpec{{Prov: 0, AccKey: 0, Bind: validBind(0)}, {Prov: 0, AccKey: 1, Bind: validBind(1)}, {Prov: 0, AccKey: 2, Bind: validBind(0)}}
+	if r.Chance(1, 3) {
+		k.Reqs[1] = ReqSpec{Prov: 2, AccKey: 1, Bind: BindSpec{Omit: true}}
+	}
+	first, second := byte('0'), byte('2')
+	if r.Chance(1, 2) {
+		first, second = second, first
+	}
+	base := []byte{first, first, first, first, second, second, second, second}
+	// insert the moves of request 1 at random positions
+	for n := 0; n < 4; n++ {
+		pos := r.Intn(len(base) + 1)
+		base = append(base[:pos], append([]byte{'1'}, base[pos:]...)...)
+	}
+	k.Sched = string(base)
+	return k
+}
+
 func genConc(r *c.Rng) *Case {
 	k := genHist(r)
 	k.Kind = "conc"
@@ -657,8 +702,8 @@ func genConc(r *c.Rng) *Case {
 	left := make([]int, n)
 	total := 0
 	for i := range left {
-		left[i] = 3
-		total += 3
+		left[i] = 4
+		total += 4
 	}
 	if r.Chance(1, 5) { // incomplete schedule
 		total -= 1 + r.Intn(3)
@@ -680,7 +725,7 @@ func main() {
 	n := flag.Int("n", 300, "number of generated cases")
 	out := flag.String("out", "", "output file")
 	replay := flag.String("replay", "", "file of lines carrying case=x… to re-run")
-	stage := flag.String("stage", "hist", "hist | conc | bindonce | policy")
+	stage := flag.String("stage", "hist", "hist | conc | bindonce | policy | order | migrate")
 	flag.Parse()
 	o, err := c.NewOut(*out)
 	if err != nil {
@@ -688,6 +733,10 @@ func main() {
 		os.Exit(2)
 	}
 	defer o.Close()
+	if *stage == "order" && *replay == "" {
+		orderStage(o)
+		return
+	}
 	w, err := newWorld()
 	if err != nil {
 		fmt.Fprintln(os.Stderr, "environment:", err)
@@ -748,6 +797,21 @@ func main() {
 			o.Case(line, impl)
 		}
 	}
+	emitMig := func(k *ProvCase) {
+		recycle()
+		var line, impl string
+		func() {
+			defer func() {
+				if r := recover(); r != nil {
+					impl = "crash"
+				}
+			}()
+			line, impl = w.runMigrate(k)
+		}()
+		if line != "" {
+			o.Case(line, impl)
+		}
+	}
 	if *replay != "" {
 		data, err := os.ReadFile(*replay)
 		if err != nil {
@@ -765,6 +829,17 @@ func main() {
 			}
 			js, err := hex.DecodeString(h)
 			if err != nil {
+				continue
+			}
+			if strings.HasPrefix(l, "prov ") {
+				var pk ProvCase
+				if json.Unmarshal(js, &pk) == nil {
+					emitMig(&pk)
+				}
+				continue
+			}
+			if strings.HasPrefix(l, "order ") {
+				orderStage(o)
 				continue
 			}
 			if strings.HasPrefix(l, "cmp=class") {
@@ -803,11 +878,27 @@ func main() {
 			emit(genHist(r.Fork()))
 		}
 	case "conc":
-		for _, s := range interleavings(3, 3) {
+		for _, s := range interleavings(4, 4) {
 			emit(d11Pair(s, "conc"))
 		}
 		for i := 0; i < *n; i++ {
+			if i%5 == 4 {
+				emit(genExclusive(r.Fork(), "conc"))
+				continue
+			}
 			emit(genConc(r.Fork()))
+		}
+	case "migrate":
+		for _, k := range migrateCorners() {
+			emitMig(k)
+		}
+		for i := 0; i < *n; i++ {
+			k := genMigrate(r.Fork())
+			k.E2E = i%40 == 39 && len(k.Ch) == 0 || (i%40 == 39 && !strings.Contains(strings.Join(k.Ch, ","), "wire"))
+			if k.E2E {
+				k.Roots = false
+			}
+			emitMig(k)
 		}
 	case "policy":
 		for _, k := range policyCorners() {
@@ -817,7 +908,7 @@ func main() {
 			emitPol(genPolicy(r.Fork()))
 		}
 	case "bindonce":
-		for _, s := range []string{"000111", "111000", "010101"} {
+		for _, s := range []string{"00001111", "11110000", "01010101", "01010110", "00110101", "01001110"} {
 			emit(d11Pair(s, "bindonce"))
 		}
 		for _, u := range []string{"case-prov", "case-host", "case-scheme", "case-path"} {
@@ -831,6 +922,11 @@ func main() {
 			emit(&Case{Kind: "bindonce", Keys: []KeySpec{{0}}, Reqs: []ReqSpec{{Prov: 0, AccKey: 0, Bind: b}, {Prov: 0, AccKey: 0, Bind: validBind(0)}}})
 		}
 		for i := 0; i < *n; i++ {
+			if i%4 == 3 {
+				// three requests, those that share a key do not overlap each other, the third moves freely
+				emit(genExclusive(r.Fork(), "bindonce"))
+				continue
+			}
 			k := genHist(r.Fork())
 			k.Kind = "bindonce"
 			emit(k)
